@@ -304,6 +304,7 @@ class C06(ServerProp):
         i = 0
         flagsets = ["".join(x) for x in itertools.product(["", "r"], ["", "o"], ["", "k"], ["", "s"], ["", "x"])]
         flagsets += [f + "v" for f in flagsets[::3]]      # the same cells with the server on ::1
+        flagsets += [f + "p" for f in flagsets[1:32:4]]   # the client's transfer identifier is a port <= 1024 (any port is a valid TID)
         names = [b"a", b"new", b"sub/b", b"sub/new", b"nodir/x", b"long", b"short", b"/a", b"sub\\b", b"empty", b"sub/empty",
                  # letters whose code point, cut to one byte, is '/' or '\\' (U+042F, U+015C, U+4E5C): they are letters, not separators
                  "sub\u042fb".encode(), "\u042fa".encode(), "sub\u015cb".encode(), "\u4e5clong".encode()]
@@ -366,7 +367,9 @@ class C06(ServerProp):
         return None
 
 
-BOUND = [0, 1, 7, 8, 9, 511, 512, 513, 1428, 65464, 65465, 65535, 65536, 2 ** 31, 2 ** 32, 2 ** 40, 2 ** 63, 2 ** 64 - 2, 2 ** 64 - 1]
+BOUND = [0, 1, 7, 8, 9, 511, 512, 513, 1428, 65464, 65465, 65535, 65536, 2 ** 31, 2 ** 32, 2 ** 40, 2 ** 63, 2 ** 64 - 2, 2 ** 64 - 1,
+         # values that become valid when cut to 32, 16 or 8 bits
+         2 ** 32 + 8, 2 ** 32 + 512, 3 * 2 ** 32 + 1428, 2 ** 16 + 8, 2 ** 16 + 512, 2 ** 40 + 65464, 2 ** 63 + 9]
 
 
 def case_variants(rng, name):
@@ -392,9 +395,9 @@ def rand_optlist(rng, hostile=False):
             if nm == "blksize":
                 v = rng.choice([8, 8, 9, 16, 512, 1428, 65464] + BOUND) if rng.random() < 0.6 else rng.randint(8, 2000)
             elif nm == "timeout":
-                v = rng.choice([1, 1, 2, 5, 255, 0, 256, 2 ** 32, 2 ** 64 - 1, 2 ** 64 - 2])
+                v = rng.choice([1, 1, 2, 5, 255, 0, 256, 2 ** 32, 2 ** 64 - 1, 2 ** 64 - 2, 2 ** 32 + 1, 2 ** 8 + 1, 2 ** 16 + 2, 2 ** 32 + 255])
             elif nm == "windowsize":
-                v = rng.choice([1, 2, 3, 4, 8, 64, 65, 100, 128, 300, 1000, 65535, 0, 65536, 2 ** 32])
+                v = rng.choice([1, 2, 3, 4, 8, 64, 65, 100, 128, 300, 1000, 65535, 0, 65536, 2 ** 32, 2 ** 32 + 2, 2 ** 16 + 2, 2 ** 32 + 65535, 2 ** 17 + 3])
             else:
                 v = rng.choice([0, 1, 12345, 2 ** 32, 2 ** 64 - 1])
             val = str(v).encode()
@@ -422,7 +425,7 @@ class C09(ServerProp):
         n = 900 if tier == "quick" else 20000
         for i in range(n):
             kind = rng.choice(["rrq", "rrq", "wrq"])
-            flags = rng.choice(["-", "s", "o", "so", "1", "sx", "v", "sv", "ov"])   # v: the server listens on ::1
+            flags = rng.choice(["-", "s", "o", "so", "1", "sx", "v", "sv", "ov", "p", "sp"])   # v: the server listens on ::1
             flen = rng.choice([0, 1, 7, 8, 9, 16, 17, 100, 511, 512, 513, 1024, 3000])
             split = "x" in flags
             base = "send" if split else "srv"
@@ -589,7 +592,7 @@ class C05(ServerProp):
         # names that make the file-system calls themselves fail (ENAMETOOLONG, ENOTDIR, EISDIR), not only ENOENT
         name = rng.choice([b"f", b"f", b"missing", b"pipe", b"pipe", b"../x", b"up%d" % rng.randint(0, 9), b"a" * 255, b"a" * 256, b"b" * 400,
                            b"f/x", b"f/", b"f/.", b"", b"/", b".", b"sub/" + b"c" * 300, b"\xc3\xa9" * 130])
-        vals = [b"0", b"1", b"7", b"8", b"65464", b"65465", b"65536", b"2147483648", b"4294967296", b"1099511627776", b"9223372036854775808",
+        vals = [b"0", b"1", b"7", b"8", b"65464", b"65465", b"65536", b"2147483648", b"4294967296", b"4294967304", b"4294967297", b"65538", b"1099511627776", b"9223372036854775808",
                 b"18446744073709551615", b"18446744073709551616", b"18446744073709551614", b"-1", b"+5", b"abc", b""]
         opts = [(rng.choice([b"blksize", b"BLKSIZE", b"timeout", b"windowsize", b"tsize", b"foo", b"\xc4\xb0", b"\xc4\xb0\xc4\xb0\xc4\xb0", b"\xc8\xba", b"bl\xc4\xb0size"]),
                  rng.choice(vals)) for _ in range(rng.randint(1, 3))]
@@ -813,6 +816,25 @@ class C12(ServerProp):
             i += 1
             lines.append("multi %s %s srv/c=gen:16:3,srv/big=gen:3000:5 01 D:big:1024:2 u:up1:512:1:gen:700:3" % (self.root(i), flags))
             i += 1
+        # directed: a retransmitted DATA must be acknowledged again (the client "lost" the first ACK of every window) - also in single-port mode
+        # and in duplicate-packets mode, where the listener routes / the workers repeat every datagram
+        for flags in ["s", "-", "s1", "s2", "1"]:
+            lines.append("multi %s %s srv/c=gen:16:3 01 U:up1:8:1:gen:30:1 d:c:8:1" % (self.root(i), flags))
+            i += 1
+            lines.append("multi %s %s srv/c=gen:16:3 0 U:up1:512:2:gen:2100:8 U:up2:8:3:gen:70:2" % (self.root(i), flags))
+            i += 1
+        # directed: a served file is replaced on disk between two downloads of it: the second download (and its tsize) is the new file
+        for flags in ["s", "-"]:
+            lines.append("multi %s %s srv/c=gen:16:3,srv/big=gen:3000:5 %s d:c:8:1 m:c:gen:50:9 d:c:8:1" % (self.root(i), flags, "0" * 6 + "1" + "2" * 9))
+            i += 1
+            lines.append("multi %s %s srv/c=gen:16:3,srv/big=gen:3000:5 %s d:big:512:2 m:big:gen:700:1 d:big:512:2 d:big:1024:1" % (self.root(i), flags, "0" * 8 + "1" + "2" * 6 + "3" * 4))
+            i += 1
+        # directed: after its transfer has finished, the same endpoint sends a stray non-request packet: it owns no transfer any more and
+        # gets an ERROR (the first such packet too)
+        for flags in ["s", "-"]:
+            for sq in ["d:c:8:1+i:ack", "u:up1:8:2:gen:30:1+i:data", "d:c:8:1+i:err+i:ack", "d:missing:8:1+i:oack"]:
+                lines.append("multi %s %s srv/c=gen:16:3,srv/big=gen:3000:5 %s %s d:big:512:1" % (self.root(i), flags, rng.choice(["0", "01", "0011"]), sq))
+                i += 1
         # directed: one endpoint performs two transfers, one after the other, from the same port (a client need not change its port)
         seqs = ["d:c:8:1+d:big:512:1", "d:big:512:2+u:up1:512:1:gen:700:3", "u:up1:8:2:gen:30:1+d:c:8:1", "u:up1:512:1:gen:1500:4+u:up2:512:1:gen:600:5",
                 "d:missing:512:1+d:c:8:1", "d:c:8:1+d:c:8:1"]
@@ -826,7 +848,7 @@ class C12(ServerProp):
             k = rng.randint(2, 4 if tier == "quick" else 9)
             cl, fs = self.gen_clients(rng, k)
             sched = "".join(rng.choice("0123456789"[:k]) for _ in range(rng.randint(0, 6 * k)))
-            flags = rng.choice(["-", "s", "-", "s", "r", "sr", "v", "sv"])
+            flags = rng.choice(["-", "s", "-", "s", "r", "sr", "v", "sv", "p", "sp"])
             lines.append("multi %s %s %s %s %s" % (self.root(i), flags, fs, sched or "0", " ".join(cl)))
             i += 1
         return lines
@@ -854,16 +876,25 @@ class C12(ServerProp):
             gots = outs.get("c%d" % k, "").split("|")
             gots += [""] * (len(parts) - len(gots))
             subs += [(k, sp, g) for sp, g in zip(parts, gots)]
+        files = dict(c.files)
         for k, spec, got in subs:
             p = spec.split(":")
             if p[0] == "D":
                 p[0] = "d"       # a download whose request datagram was sent twice: the same outcome is due
+            if p[0] == "U":
+                p[0] = "u"       # an upload whose client lost the first acknowledgement of every window: the same outcome is due
+            if p[0] == "m":
+                # the served file was replaced behind the server's back (such scenarios run strictly in list order)
+                files["srv/" + p[1]] = content(":".join(p[2:]))
+                continue
             if p[0] == "d":
-                f = c.files.get("srv/" + p[1])
+                f = files.get("srv/" + p[1])
                 if f is not None:
                     want = "ok:%d:%d" % (len(f), fnv(f))
                     if not got.startswith(want):
                         return ("client %d downloading %s did not receive exactly its own file (%s)" % (k, p[1], got), "download-wrong")
+                    if got.split(":")[4:5] != ["t%d" % len(f)]:
+                        return ("client %d: the OACK announced tsize %s for a download of %d bytes" % (k, got.split(":")[4:5], len(f)), "download-tsize")
                     cls = got.split(":")[3]
                     if single and cls != "L":
                         return ("single-port mode: a server datagram did not originate from the listening port", "single-port-source")
